@@ -212,6 +212,8 @@ def _bcd_epoch(X, y, w, Xw, lipschitz, datafit, penalty, ws):
         old_w_g = w[grp_g_indices].copy()
 
         lipschitz_g = lipschitz[g]
+        if lipschitz_g == 0.:  # null group: nothing to gain, and 1 / lipschitz_g is undefined
+            continue
         grad_g = datafit.gradient_g(X, y, w, Xw, g)
 
         w[grp_g_indices] = penalty.prox_1group(
@@ -233,6 +235,8 @@ def _bcd_epoch_sparse(
         old_w_g = w[grp_g_indices].copy()
 
         lipschitz_g = lipschitz[g]
+        if lipschitz_g == 0.:  # null group: nothing to gain, and 1 / lipschitz_g is undefined
+            continue
         grad_g = datafit.gradient_g_sparse(X_data, X_indptr, X_indices, y, w, Xw, g)
 
         w[grp_g_indices] = penalty.prox_1group(
